@@ -605,6 +605,44 @@ fn check_program(bytes: &[u8], rep: &mut Report) {
     }
 }
 
+/// postcard, by hand: unsigned LEB128 varints, zigzag for signed words, sequences as varint length
+/// + elements, structs as the concatenation of their fields in declaration order, byte slices as
+/// sequences of bytes. Nothing is ever omitted: an empty list is its length 0.
+fn pc_varint(mut v: u64, out: &mut Vec<u8>) {
+    loop {
+        let b = (v & 0x7F) as u8;
+        v >>= 7;
+        if v == 0 {
+            out.push(b);
+            return;
+        }
+        out.push(b | 0x80);
+    }
+}
+fn pc_words(ws: &[Word], out: &mut Vec<u8>) {
+    pc_varint(ws.len() as u64, out);
+    for w in ws {
+        pc_varint(((*w << 1) ^ (*w >> 63)) as u64, out);
+    }
+}
+pub fn ref_postcard_solution(ss: &SSpec) -> Vec<u8> {
+    let mut out = vec![];
+    for a in [&ss.contract, &ss.predicate] {
+        pc_varint(32, &mut out);
+        out.extend_from_slice(&a.0);
+    }
+    pc_varint(ss.data.len() as u64, &mut out);
+    for d in &ss.data {
+        pc_words(d, &mut out);
+    }
+    pc_varint(ss.muts.len() as u64, &mut out);
+    for (k, v) in &ss.muts {
+        pc_words(k, &mut out);
+        pc_words(v, &mut out);
+    }
+    out
+}
+
 fn check_solution(ss: &SSpec, rep: &mut Report) {
     let case = || json!({"kind": "value", "value": VSpec::Solution(ss.clone())});
     let s = ss.build();
@@ -620,6 +658,11 @@ fn check_solution(ss: &SSpec, rep: &mut Report) {
     let pc = postcard::to_allocvec(&s).unwrap_or_default();
     if ser != pc {
         fail(rep, "helpers_agree", &["solution:serialize_vs_postcard".into()], &case, json!(hx(&pc)), json!(hx(&ser)), &|| String::new());
+    }
+    // the pre-hash bytes are the complete postcard encoding of every field, written out by hand
+    let by_hand = ref_postcard_solution(ss);
+    if ser != by_hand {
+        fail(rep, "addr.solution_encoding", &["solution:serialize_vs_hand_written_postcard".into()], &case, json!(hx(&by_hand)), json!(hx(&ser)), &|| String::new());
     }
     let want = sha256(&ser);
     let se = ss.expr();
@@ -1020,6 +1063,19 @@ fn perturb_solution(s: &SSpec) -> Vec<(String, SSpec)> {
     out.push(("append state_mutation".into(), SSpec { muts: m, ..s.clone() }));
     if s.muts.len() == 2 {
         out.push(("swap state_mutations".into(), SSpec { muts: vec![s.muts[1].clone(), s.muts[0].clone()], ..s.clone() }));
+        // the same words in the same order, every other split into key0 | value0 | key1 | value1
+        let flat: Vec<Word> = s.muts.iter().flat_map(|(k, v)| k.iter().chain(v.iter()).copied().collect::<Vec<_>>()).collect();
+        let n = flat.len();
+        for a in 0..=n {
+            for b in a..=n {
+                for c in b..=n {
+                    let m = vec![(flat[..a].to_vec(), flat[a..b].to_vec()), (flat[b..c].to_vec(), flat[c..].to_vec())];
+                    if m != s.muts {
+                        out.push(("state_mutations re-split".into(), SSpec { muts: m, ..s.clone() }));
+                    }
+                }
+            }
+        }
     }
     // move a word between predicate_data and the first mutation key
     if let (Some(last), Some(m0)) = (s.data.last(), s.muts.first()) {
